@@ -174,6 +174,71 @@ pub fn sets(ctx: &Ctx) -> Vec<CaseSet> {
             check(rep, &v, &p, &q, false);
         }),
     ));
+    // sizes at and around powers of two (buffer capacities, chunk sizes): byte vectors,
+    // strings, names, lists and vectors of exactly that many elements
+    let n_sizes_p = ctx.size(24, N_P as u64);
+    out.push(CaseSet::new(
+        "sizes-around-powers-of-two",
+        n_sizes_p,
+        Box::new(move |rep, rng, case| {
+            let p = if thorough { P::from_index(case as usize) } else { P::from_index(rng.below(N_P)) };
+            let qs = compatible_qs(&p);
+            let q = qs[rng.below(qs.len())];
+            let mut sizes: Vec<usize> = Vec::new();
+            for k in [8u32, 10, 11, 12, 13] {
+                for d in [-1i64, 0, 1] {
+                    sizes.push(((1i64 << k) + d) as usize);
+                }
+            }
+            if thorough {
+                sizes.extend([16383, 16384, 16385, 65535, 65536, 65537, 3 * 1024, 5 * 4096]);
+            }
+            for n in sizes {
+                rep.max("max_sized_atom", n as u64);
+                let vs = [
+                    Value::bytes((0..n).map(|i| (i * 7 + n) as u8).collect::<Vec<u8>>()),
+                    Value::string((0..n).map(|i| if i % 97 == 0 { 'é' } else { (b'a' + (i % 26) as u8) as char }).collect::<String>()),
+                    Value::symbol("s".repeat(n)),
+                    Value::list((0..n).map(|i| Value::from((i % 1000) as u32)).collect::<Vec<_>>()),
+                    Value::vector((0..n).map(|i| Value::from((i % 7) as u32)).collect::<Vec<_>>()),
+                ];
+                for v in vs.iter() {
+                    check(rep, v, &p, &q, false);
+                }
+            }
+        }),
+    ));
+    // wide values: hundreds of siblings, many of them empty compounds and empty atoms
+    let tbw = tb.clone();
+    out.push(CaseSet::new(
+        "wide-with-empties",
+        ctx.size(400, 20_000),
+        Box::new(move |rep, rng, _| {
+            let p = P::from_index(rng.below(N_P));
+            let qs = compatible_qs(&p);
+            let q = qs[rng.below(qs.len())];
+            let n = rng.range(130, 420);
+            let favourite = rng.below(6);
+            let items: Vec<Value> = (0..n)
+                .map(|_| match if rng.chance(2, 3) { favourite } else { rng.below(7) } {
+                    0 => Value::vector(Vec::<Value>::new()),
+                    1 => Value::Null,
+                    2 => Value::string(""),
+                    3 => Value::bytes(Vec::<u8>::new()),
+                    4 => Value::list(vec![Value::vector(Vec::<Value>::new())]),
+                    5 => Value::vector(vec![Value::Null]),
+                    _ => gen_for(rng, &tbw, &p, &q, 1),
+                })
+                .collect();
+            let v = match rng.below(3) {
+                0 => Value::list(items),
+                1 => Value::vector(items),
+                _ => Value::append(items, Value::symbol("z")),
+            };
+            rep.max("max_siblings", n as u64);
+            check(rep, &v, &p, &q, false);
+        }),
+    ));
     // leaf tables through every P (first compatible Q and a random one)
     let tb4 = tb.clone();
     out.push(CaseSet::new(
